@@ -199,3 +199,114 @@ pub fn checksum(crc: bool, data: &[u8]) -> u64 {
         data,
     )
 }
+
+// ---------------------------------------------------------------------------------------------
+// row-sets: build one in memory, scan it with delete vectors and a key range
+// ---------------------------------------------------------------------------------------------
+
+/// What one `RowSetIterator::next_batch` call returned: the arrays and the visibility bitmap.
+pub struct ScanBatch {
+    pub arrays: Vec<ArrayImpl>,
+    pub visibility: Option<Vec<bool>>,
+}
+
+/// A row-set built in memory together with what the engine derived from it.
+pub struct BuiltRowset {
+    rowset: std::sync::Arc<DiskRowset>,
+    /// per block of column 0: (first_rowid, row_count, first_key bytes)
+    pub key_blocks: Vec<(u32, u32, Vec<u8>)>,
+}
+
+/// Build a row-set from `chunks` (one `append` each) with the given column builder options.
+pub async fn build_rowset(
+    columns: Vec<ColumnCatalog>,
+    block_size: usize,
+    encode: u8,
+    chunks: Vec<crate::array::DataChunk>,
+) -> StorageResult<BuiltRowset> {
+    let options = ColumnBuilderOptions {
+        target_block_size: block_size,
+        checksum_type: ChecksumType::Crc32,
+        encode_type: match encode {
+            0 => EncodeType::Plain,
+            1 => EncodeType::RunLength,
+            _ => EncodeType::Dictionary,
+        },
+        record_first_key: true,
+    };
+    let columns: std::sync::Arc<[ColumnCatalog]> = columns.into();
+    let mut builder = RowsetBuilder::new(columns.clone(), options);
+    for c in chunks {
+        builder.append(c);
+    }
+    let backend = IOBackend::in_memory();
+    let dir = std::path::PathBuf::from("/verif-rowset");
+    let writer = RowsetWriter::new(&dir, backend.clone());
+    writer.flush(builder.finish()).await?;
+    let rowset = DiskRowset::open(dir, columns, Cache::new(256), 0, backend).await?;
+    let key_blocks = rowset
+        .column(0)
+        .index()
+        .indexes()
+        .iter()
+        .map(|i| (i.first_rowid, i.row_count, i.first_key.clone()))
+        .collect();
+    Ok(BuiltRowset {
+        rowset: std::sync::Arc::new(rowset),
+        key_blocks,
+    })
+}
+
+impl BuiltRowset {
+    /// `DiskRowset::start_rowid` for a key range (what `scan_inner` computes before iterating).
+    pub async fn start_rowid(&self, range: &Option<crate::storage::KeyRange>) -> u32 {
+        use std::ops::Bound;
+        let begin = match range {
+            Some(r) => match &r.start {
+                Bound::Included(k) | Bound::Excluded(k) => Some(k),
+                _ => None,
+            },
+            None => None,
+        };
+        match self.rowset.start_rowid(begin).await {
+            ColumnSeekPosition::RowId(r) => r,
+            _ => unreachable!(),
+        }
+    }
+
+    /// Scan the row-set as `SecondaryTransaction::scan_inner` does for one row-set.
+    pub async fn scan(
+        &self,
+        col_refs: &[crate::storage::StorageColumnRef],
+        deletes: Vec<Vec<u32>>,
+        range: Option<crate::storage::KeyRange>,
+        expected_size: Option<usize>,
+    ) -> StorageResult<Vec<ScanBatch>> {
+        let dvs = deletes
+            .into_iter()
+            .enumerate()
+            .map(|(i, d)| {
+                std::sync::Arc::new(DeleteVector::new(
+                    i as u64,
+                    0,
+                    d.into_iter()
+                        .map(|row_id| risinglight_proto::rowset::DeleteRecord { row_id })
+                        .collect(),
+                ))
+            })
+            .collect();
+        let start = self.start_rowid(&range).await;
+        let mut it = self
+            .rowset
+            .iter(col_refs.into(), dvs, ColumnSeekPosition::RowId(start), range)
+            .await?;
+        let mut out = vec![];
+        while let Some(chunk) = it.next_batch(expected_size).await? {
+            out.push(ScanBatch {
+                arrays: chunk.arrays().to_vec(),
+                visibility: chunk.visibility().as_ref().map(|v| v.iter().by_vals().collect()),
+            });
+        }
+        Ok(out)
+    }
+}
